@@ -100,3 +100,6 @@ func ghost_bufstr(b *bytes.Buffer) string { panic("ghost") }
 
 //@ iface context.Context.Done(self context.Context) (r <-chan struct{})
 //@ iface context.Context.Err(self context.Context) (err error)
+
+//@ ext strconv.ParseUint(s string, base int, bitSize int) (n uint64, err error)
+//@   ensures err == nil && bitSize == 32 ==> n <= 4294967295
